@@ -170,6 +170,23 @@ extern crate self as ractor;
 
 // ======================== Modules ======================== //
 
+#[cfg(feature = "slawlor_ractor_verif")]
+pub mod verif;
+#[cfg(feature = "slawlor_ractor_verif")]
+#[allow(unused_macros)]
+macro_rules! verif_point {
+    ($label:expr) => {
+        $crate::verif::point($label)
+    };
+}
+#[cfg(not(feature = "slawlor_ractor_verif"))]
+#[allow(unused_macros)]
+macro_rules! verif_point {
+    ($label:expr) => {};
+}
+#[allow(unused_imports)]
+pub(crate) use verif_point;
+
 pub mod actor;
 #[cfg(test)]
 pub(crate) mod common_test;
